@@ -91,13 +91,18 @@ class Registry:
                 for x in self.mro(b):
                     if x not in out:
                         out.append(x)
+            if c.kind and c.kind not in out:
+                out.append(c.kind)          # subclass of the built-in container
         return out
 
     def is_subclass(self, a, b):
         return b in self.mro(a)
 
     def subclasses_of(self, cls):
-        return [c for c in self.classes if self.is_subclass(c, cls)] or [cls]
+        out = [c for c in self.classes if self.is_subclass(c, cls)]
+        if cls not in out:
+            out.append(cls)
+        return out
 
     def class_kind(self, cls):
         for c in self.mro(cls):
